@@ -297,7 +297,9 @@ fn arrow(rng: &mut Rng, ctx: &mut Ctx) {
     use peppi::game::port_occupancy;
     let go = GenOpts { max_frames: if ctx.thorough { 30 } else { 8 }, newer: false, force: None };
     for k in 0..ctx.n {
-        let (r, mut tags) = gen_replay(rng, k, &go);
+        let (mut r, mut tags) = gen_replay(rng, k, &go);
+        // the recorded finding (no occupied port) is exercised in every run, deterministically, as the first case
+        if k == 0 { r = simple((3, 16, 0), &[], 2, &[], rng); }
         if r.frames.is_empty() { continue; }
         let b = encode(&r);
         let zero_ports = slots_of(&r.start_block).is_empty();
@@ -514,7 +516,8 @@ fn peppi_suite(rng: &mut Rng, ctx: &mut Ctx) {
     let comps = [None, Some(arrow2::io::ipc::write::Compression::LZ4), Some(arrow2::io::ipc::write::Compression::ZSTD)];
     let go = GenOpts { max_frames: if ctx.thorough { 25 } else { 7 }, newer: false, force: None };
     for k in 0..ctx.n {
-        let (r, tags) = gen_replay(rng, k, &go);
+        let (mut r, tags) = gen_replay(rng, k, &go);
+        if k == 0 { r = simple((3, 16, 0), &[], 2, &[], rng); } // the recorded finding, in every run
         let b = encode(&r);
         let comp = comps[k % 3]; let hash = k % 2 == 0;
         let zero_ports = slots_of(&r.start_block).is_empty();
